@@ -209,6 +209,33 @@ func genRelayNeg(s *src, o *out) {
 	if _, ok := s.funcs["escapeTable.MarshalText"]; ok {
 		hasMarshal = true
 	}
+	// the tunnelConnected flag: set by handshake() from the client's ACT, cleared by
+	// resetToStandby once its CAS has succeeded, consulted by addHandshakeBuffer
+	top := func(fn, want string) bool {
+		for _, st := range s.fn(fn).Body.List {
+			if s.text(st) == want {
+				return true
+			}
+		}
+		return false
+	}
+	rs := s.fn("TrzszRelay.resetToStandby").Body.List
+	guard := "if !r.relayStatus.CompareAndSwap(status, kRelayStandBy) { return }"
+	if len(rs) == 0 || s.text(rs[0]) != guard {
+		die("relayneg: resetToStandby no longer starts with the CompareAndSwap guard")
+	}
+	o.raw("Definition relayneg_reset_clears_tunnel_flag : bool := %v.\n", top("TrzszRelay.resetToStandby", "r.tunnelConnected.Store(false)"))
+	o.raw("Definition relayneg_handshake_sets_tunnel_flag : bool := %v.\n", top("TrzszRelay.handshake", "r.tunnelConnected.Store(action.TunnelConnected)"))
+	cond := ""
+	for _, st := range s.fn("TrzszRelay.addHandshakeBuffer").Body.List {
+		if is, ok := st.(*ast.IfStmt); ok {
+			cond = s.text(is.Cond) + " => " + s.text(is.Body)
+		}
+	}
+	if cond == "" {
+		die("relayneg: addHandshakeBuffer has no if statement")
+	}
+	o.defBytes("relayneg_parking_rule_src", cond)
 	o.raw("Definition relayneg_escape_table_exported_fields : N := %d.\n", exported)
 	o.raw("Definition relayneg_escape_table_has_marshaler : bool := %v.\n", hasMarshal)
 }
